@@ -16,6 +16,8 @@ def chash(c):
              repr(sorted(c.loops.items(), key=str)), repr(sorted(c.lets.items())), repr(sorted((k, repr(v)) for k, v in c.defs.items()))]
     if getattr(c, "hints", None):
         parts.append(repr(sorted(c.hints.items())))
+    if getattr(c, "abstract_nonlinear", False):
+        parts.append("abstract_nonlinear")
     return hashlib.sha256("|".join(parts).encode()).hexdigest()[:12]
 
 
